@@ -1258,12 +1258,13 @@ type reacher struct {
 	// bound to that return's operands (so `ok, err := helper(); if !ok { return err }` is followed with
 	// the values that return really produced)
 	bind    []binding
-	retList [][]*ssa.Return
+	retList [][]binding
 }
 
 type binding struct {
 	call *ssa.Call
 	ret  *ssa.Return
+	vals []ssa.Value // the return's operands, a returned phi resolved for the way the return was reached
 }
 
 // activeBind is the binding stack of the reach query whose target callback is running (see Bound).
@@ -1293,7 +1294,7 @@ func boundIn(bs []binding, v ssa.Value) ssa.Value {
 		found := false
 		for k := len(bs) - 1; k >= 0; k-- {
 			if bs[k].call == call {
-				vals := ResultValues(bs[k].ret)
+				vals := bs[k].vals
 				if idx < len(vals) {
 					v = vals[idx]
 					found = true
@@ -1421,7 +1422,13 @@ func (r *reacher) run(b0 *ssa.BasicBlock, i0 int) (ssa.Instruction, bool) {
 				if ret.Block().Comment != "recover" {
 					exits = true
 					if n := len(r.retList); n > 0 {
-						r.retList[n-1] = append(r.retList[n-1], ret)
+						vals := ResultValues(ret)
+						if ph := phiReturn(s.b); ph != nil && s.i == 0 && len(vals) == 1 {
+							if w := incoming(ph, s.pred); w != nil {
+								vals = []ssa.Value{w}
+							}
+						}
+						r.retList[n-1] = append(r.retList[n-1], binding{ret: ret, vals: vals})
 					}
 					if n := len(r.retVal); n > 0 && len(ret.Results) == 1 {
 						v := ResultValues(ret)[0]
@@ -1484,11 +1491,11 @@ func (r *reacher) run(b0 *ssa.BasicBlock, i0 int) (ssa.Instruction, bool) {
 				if f != nil {
 					return f, exits
 				}
-				for _, ret := range rets {
-					if ret.Parent() != h {
+				for _, rb := range rets {
+					if rb.ret.Parent() != h {
 						continue
 					}
-					r.bind = append(r.bind, binding{call, ret})
+					r.bind = append(r.bind, binding{call, rb.ret, rb.vals})
 					f, ex := r.run(s.b, i+1)
 					r.bind = r.bind[:len(r.bind)-1]
 					if f != nil {
@@ -1543,6 +1550,21 @@ func (r *reacher) run(b0 *ssa.BasicBlock, i0 int) (ssa.Instruction, bool) {
 			if iff, ok := s.b.Instrs[len(s.b.Instrs)-1].(*ssa.If); ok && len(r.bind) > 0 {
 				if d := boundBranch(r.bind, iff.Cond); (d > 0 && k == 1) || (d < 0 && k == 0) {
 					continue // this path's helper results decide the branch the other way
+				}
+				// a computed result (`return last == kind`): the successor on which it would establish one
+				// of the cut's facts is cut
+				bc, bneg := iff.Cond, false
+				for {
+					u, ok := bc.(*ssa.UnOp)
+					if !ok || u.Op != token.NOT {
+						break
+					}
+					bc, bneg = u.X, !bneg
+				}
+				if bv := boundIn(r.bind, bc); bv != bc {
+					if _, isConst := bv.(*ssa.Const); !isConst && r.cut.factCut(bv, (k == 0) != bneg) {
+						continue
+					}
 				}
 			}
 			if pv != nil {
@@ -1618,7 +1640,7 @@ func (r *reacher) afterFrom(from ssa.Instruction) ssa.Instruction {
 		r.retList = append(r.retList, nil)
 	}
 	found, exits := r.run(b, idx+1)
-	var rets []*ssa.Return
+	var rets []binding
 	if inHelper {
 		rets = r.retList[len(r.retList)-1]
 		r.retList = r.retList[:len(r.retList)-1]
@@ -1633,11 +1655,11 @@ func (r *reacher) afterFrom(from ssa.Instruction) ssa.Instruction {
 			}
 			if len(helperSites[g]) == 1 && len(rets) > 0 && len(r.bind) < 3 {
 				// continue after the only call site once per return this start can reach, results bound
-				for _, ret := range rets {
-					if ret.Parent() != g {
+				for _, rb := range rets {
+					if rb.ret.Parent() != g {
 						continue
 					}
-					r.bind = append(r.bind, binding{cs, ret})
+					r.bind = append(r.bind, binding{cs, rb.ret, rb.vals})
 					f := r.afterFrom(cs)
 					r.bind = r.bind[:len(r.bind)-1]
 					if f != nil {
